@@ -23,7 +23,7 @@ RULE = ('history = 2-14 generated operations, mostly update_one / update_many / 
         '$addToSet with $each, $pull, $pullAll, $pop, $rename, $currentDate, $setOnInsert) on '
         'dotted paths aimed at existing fields, arrays and beyond their end, chained so that each '
         'update works on the result of the previous ones, half of the histories on emulated '
-        'server 4.4; every step is compared with the Lean model (outcome, full documents) and, '
+        'server 4.4; the witnesses of the repaired defects are replayed first; every step is compared with the Lean model (outcome, full documents) and, '
         'where the independent reference semantics commits to an answer, with the reference; '
         '8% of the updates use the positional operator (filter with $elemMatch, path f.$.x; outside '
         'the Lean model, judged on python only): every update_many over >= 2 matches is compared '
@@ -184,13 +184,7 @@ def oracle(history, steps):
                             except Exception:  # pylint: disable=broad-except
                                 continue
                             if not refupdate.same_doc(exp, docs[j]):
-                                lab = 'operator-result'
-                                pa = spec.get('$pullAll') if isinstance(spec, dict) else None
-                                if isinstance(pa, dict) and any(
-                                        '.' in p and refupdate.get_at(prev[j], p.split('.')[:-1])[0]
-                                        == 'missing' for p in pa):
-                                    lab = 'pullall-creates-path'
-                                lab = classify(spec, prev[j]) or lab
+                                lab = classify(spec, prev[j]) or 'operator-result'
                                 fails.append((i, lab, '%s %r on %r gave %r, the operator '
                                               'definitions give %r'
                                               % (k, spec, prev[j], docs[j], exp)))
@@ -212,25 +206,11 @@ def oracle(history, steps):
 
 
 def classify(spec, doc):
-    """which known deviation class (if any) an operator-result mismatch falls in"""
+    """which known deviation class (if any) an operator-result mismatch falls in.  The only class
+    left is `boolnum`; $pullAll on a missing path, duplicates inside $addToSet.$each, $min/$max on
+    an array element and $pull with a path into an array are repaired and no longer excused."""
     if not isinstance(spec, dict):
         return None
-    for op in ('$min', '$max'):
-        body = spec.get(op)
-        if isinstance(body, dict):
-            for p in body:
-                parts = p.split('.')
-                parent = refupdate.get_at(doc, parts[:-1]) if len(parts) > 1 else ('value', doc)
-                if parent[0] == 'value' and isinstance(parent[1], list):
-                    return 'minmax-array-noop'
-    body = spec.get('$pull')
-    if isinstance(body, dict):
-        for p in body:
-            parts = p.split('.')
-            for n in range(1, len(parts)):
-                pre = refupdate.get_at(doc, parts[:n])
-                if pre[0] == 'value' and isinstance(pre[1], list):
-                    return 'pull-through-array'
     body = spec.get('$addToSet')
     if isinstance(body, dict):
         for p, arg in body.items():
@@ -253,12 +233,6 @@ def classify(spec, doc):
                        and not isinstance(b, (dict, list)) and a == b
                        for a in have for b in items):
                     return 'boolnum'
-    if isinstance(body, dict):
-        for p, arg in body.items():
-            if isinstance(arg, dict) and isinstance(arg.get('$each'), list):
-                e = arg['$each']
-                if any(refupdate.eq(e[a], e[b]) for a in range(len(e)) for b in range(a + 1, len(e))):
-                    return 'addtoset-each-dups'
     return None
 
 
@@ -290,12 +264,31 @@ def _engine(ctx, version):
     return eng
 
 
+def fixed_witnesses(ctx, mod):
+    """the witnesses of the repaired defects (known_findings.json, status "fixed") go through the
+    oracle and the model correspondence on every run: a recurrence is a VIOLATION"""
+    import wire
+    eng = histcheck.Engine(ctx, mod)
+    n = 0
+    for e in common.load_known(ID):
+        if e.get('status') != 'fixed' or not e.get('witness', {}).get('wire_history'):
+            continue
+        oids = wire.Oids()
+        history = wire.dec(e['witness']['wire_history'], oids)
+        py = histcheck.run_history(history, oids, mod.server_version, None, pre_probe)
+        out = wire.run_driver([hist.model_line(history, oids, mod.pre_v5)])
+        eng.judge(history, oids, py, histcheck.model_steps(history, out[0]))
+        n += 1
+    return n
+
+
 def run(ctx, proof, driver_ok):
     if not driver_ok:
         return {'explanation': 'model driver unavailable'}
     mod = sys.modules[__name__]
     n = ctx.n(1600, 40000)
     mod.server_version, mod.pre_v5, mod.SALT = '5.0.5', False, 202
+    nfixed = fixed_witnesses(ctx, mod)
     cov5 = histcheck.Engine(ctx, mod).run(n // 2)
     mod.server_version, mod.pre_v5, mod.SALT = '4.4.0', True, 244
     cov4 = histcheck.Engine(ctx, mod).run(n // 2)
@@ -306,6 +299,7 @@ def run(ctx, proof, driver_ok):
     cov['distinct_nontrivial'] = cov5['distinct_nontrivial'] + cov4['distinct_nontrivial']
     cov['per_server_version'] = {'5.0.5': cov5['stats'], '4.4.0': cov4['stats']}
     cov['python_error_kinds_server_4_4'] = cov4['python_error_kinds']
+    cov['fixed_witnesses_replayed'] = nfixed
     return cov
 
 
